@@ -1146,6 +1146,9 @@ def gen_model(g, gs, cfg, ops, c, invalid=False):
         if p >= 2 and g.random() < 0.08:
             cov = cov.copy()                 # materially non-symmetric: the constructor accepts it
             cov[0, 1] += G.r2(g, 0.3, 1.0)
+        elif p >= 2 and g.random() < 0.05:
+            cov = cov.copy()                 # symmetric, not positive semi-definite
+            cov[0, 1] = cov[1, 0] = 2.0 * max(cov[0, 0], cov[1, 1]) + 1.0
         if invalid:
             mean = G.rand_vec(g, p + 1, -2, 2)
         if p == 1 and not invalid and g.random() < 0.5:
@@ -1306,6 +1309,8 @@ def gen_m_call(g, gs, cfg, mid, force_method=None):
                 rec["args"]["x"] = enc(np.array(x, dtype=float).reshape((-1, 1) if g.random() < 0.5 else (1, -1)))
         elif method in ("regress", "mse"):
             y = g.randrange(p)
+            if p >= 2 and g.random() < 0.12:
+                y = g.choice([-1, -2])            # the response counted from the end
             k = g.randint(0, p)
             Xs = g.sample(nodes, k)
             rec["args"] = {"y": y, "Xs": idx_arg(g, Xs, p) if Xs else []}
@@ -1571,6 +1576,8 @@ def make_variant(g, rec):
         if len(Xs) >= 2 and g.random() < 0.6:
             g.shuffle(Xs)
             a["Xs"] = _asarg(Xs, "list" if fx == "scalar" else fx)
+        elif a.get("y") in (-1, -2):
+            a["y"] = -3 - a["y"]                    # -1 <-> -2, same predictors
         elif Xs:
             a["y"] = g.choice(Xs)
         else:
